@@ -43,6 +43,7 @@ def run(P, rep, tier):
     ctx = Ctx(P)
     rep.attempt(r1_refusals, P, rep, ctx)
     rep.attempt(r2_frame, P, rep, ctx)
+    rep.attempt(r2b_shared_subobjects, P, rep, ctx)
     rep.attempt(r3_identity, P, rep, ctx)
     rep.attempt(r4_copy_coverage, P, rep, ctx)
     from .c03 import r5_codec
@@ -164,6 +165,36 @@ def r2_frame(P, rep, ctx):
             rep.ok("C05.R2", fi.qual, "no store to / mutation of the source record's state", fi.loc())
         for b in bad:
             rep.fail("C05.R2", fi.qual, norm(b)[:120], f"merge modifies the still-open source record: {norm(b)[:100]} (ih5_meta / view of the source changes after a merge)", fi.loc(b))
+
+
+def r2b_shared_subobjects(P, rep, ctx):
+    """The merged user block is a *shallow* copy of the source's newest block: its nested dict of extensions is the
+    source's own object.  Nothing in merge_files / the _fixes_after_merge hooks may modify that dict through the copy."""
+    mfi = P.func(f"{R}.merge_files")
+    mf = F(ctx, mfi)
+    deep = any(norm(kwarg(c, "deep") or ast.Constant(value=None)) == "True" for i, c, b in mf.call_sites("self._ublock(-1).copy(___)"))
+    hooks = [P.func(f"{R}._fixes_after_merge"), P.func(f"{MF}._fixes_after_merge")]
+    for q in P.subclasses(R):
+        h = P.classes[q].methods.get("_fixes_after_merge")
+        if h is not None and h not in hooks:
+            hooks.append(h)
+    for fi in hooks + [mfi]:
+        ubs = {fi.params[2]} if fi is not mfi and len(fi.params) > 2 else {sv.func.value.id for sv in local_calls(fi.node) if call_attr(sv) == "save" and isinstance(sv.func.value, ast.Name)}
+        bad = []
+        for x in walk_local(fi.node):
+            if isinstance(x, ast.Call) and call_attr(x) == "update" and x.args and isinstance(x.args[0], ast.Name) and x.args[0].id in ubs and "IH5UBExt" in norm(x.func):
+                bad.append(x)  # IH5UBExt*.update(ub) stores into ub.ub_exts
+            if isinstance(x, ast.Call) and isinstance(x.func, ast.Attribute) and x.func.attr in ("update", "pop", "clear", "setdefault", "__setitem__") and any(norm(x.func.value) == f"{u}.ub_exts" for u in ubs):
+                bad.append(x)
+            if isinstance(x, (ast.Assign, ast.Delete, ast.AugAssign)):
+                for kind, t in store_targets(x):
+                    if isinstance(t, ast.Subscript) and any(norm(t.value) == f"{u}.ub_exts" for u in ubs):
+                        bad.append(x)
+        if not bad or deep:
+            rep.ok("C05.R2", fi.qual, "the extensions dict shared with the source's user block is not modified through the merged copy", fi.loc())
+        else:
+            for b_ in bad:
+                rep.fail("C05.R2", fi.qual, f"shared ub_exts modified: {norm(b_)[:80]}", f"{fi.qual} modifies the extension dict of the merged user block in place ({norm(b_)[:80]}); that block is a shallow copy, so the dict is the open source record's own: its ih5_meta changes by merging", fi.loc(b_))
 
 
 def r3_identity(P, rep, ctx):
